@@ -1,6 +1,7 @@
 import json,sys
 pid=sys.argv[1]
 LA,LB=(sys.argv[2],sys.argv[3]) if len(sys.argv)>3 else ('A','B')
+HINT='' if LA=='A' else ' Earlier rounds of this exercise have already used the most obvious sites for this property, so skip the first idea that comes to mind and look for less obvious mechanisms (other files, other options, other entry points, interactions between two features or two calls).'
 for l in open('/verif/properties.jsonl'):
     p=json.loads(l)
     if p['id']==pid: break
@@ -16,7 +17,7 @@ Statement: {p['statement']}
 Quantified over: {p['quantifier']['text']}
 Source files it is anchored in: {', '.join(p['anchors']['files'])}
 
-YOUR TASK: produce TWO independent, realistic source changes (call them {LA} and {LB}, touching different mechanisms / code sites) to the library or its tools, each of which BREAKS this property while (1) still compiling and (2) still passing the repository's existing test-suite. Think of the kind of regression a maintainer could introduce by accident in a refactoring or "optimisation" (an off-by-one, a wrong index, a cached value, a swapped argument, a dropped special case, a too-tight bound, state leaking between calls, ...). Each change must need something SPECIFIC to manifest - a particular unusual-but-valid input, a multi-step sequence of calls, a particular combination of options, two cooperating sites that each look fine alone - not something ordinary use would expose at once (that is why the existing tests stay green). Do not break the build, do not edit tests or reference outputs, do not add obviously malicious code (no "if x == 12345"). Keep each change small (a few lines).
+YOUR TASK: produce TWO independent, realistic source changes (call them {LA} and {LB}, touching different mechanisms / code sites) to the library or its tools, each of which BREAKS this property while (1) still compiling and (2) still passing the repository's existing test-suite. Think of the kind of regression a maintainer could introduce by accident in a refactoring or "optimisation" (an off-by-one, a wrong index, a cached value, a swapped argument, a dropped special case, a too-tight bound, state leaking between calls, ...). Each change must need something SPECIFIC to manifest - a particular unusual-but-valid input, a multi-step sequence of calls, a particular combination of options, two cooperating sites that each look fine alone - not something ordinary use would expose at once (that is why the existing tests stay green). Do not break the build, do not edit tests or reference outputs, do not add obviously malicious code (no "if x == 12345"). Keep each change small (a few lines).{HINT}
 
 How to build and test (use at most 6 parallel jobs so other work on this machine is not starved):
   cd {wt} && cmake -G Ninja -B _build -DCMAKE_BUILD_TYPE=RelWithDebInfo -DCMAKE_CXX_FLAGS=-Wno-error -DWB_MAKE_FORTRAN_WRAPPER=OFF . && cmake --build _build -j6 && ctest --test-dir _build -j6 --timeout 900
